@@ -319,7 +319,7 @@ func c08EntryName(a *An, df *DecodeFacts, hv []*Visit, hctx *Ctx) {
 			desc = "start index " + stripIDs(vc.path(idx.Index))
 			base, bctx := vc.resolve(idx.X)
 			bp := stripIDs(bctx.path(base))
-			rb := stripIDs(df.loopCtx(a.E.rootCtx(df.Reader)).path(df.RecordIdx.X))
+			rb := stripIDs(df.idxCtx(a.E.rootCtx(df.Reader)).path(df.RecordIdx.X))
 			if al, isAl := base.(*ssa.Alloc); isAl {
 				if sts := cellStores(al); len(sts) == 1 {
 					bp = stripIDs(bctx.path(sts[0].Val))
@@ -337,7 +337,7 @@ func c08EntryName(a *An, df *DecodeFacts, hv []*Visit, hctx *Ctx) {
 				if u, ok := rv.(*ssa.UnOp); ok && u.Op == token.MUL {
 					if fa, ok := u.X.(*ssa.FieldAddr); ok && fieldName(fa.X.Type(), fa.Field) == "Len" {
 						pv, pc := e.Ctx.resolve(fa.X)
-						if pc.Fn == df.LoopFn && pc.Depth == len(df.Chain) && pv == df.RecordConv {
+						if pc.Fn == df.LoopFn && pc.Depth == len(df.Chain) && pv == df.RecordConv || pv == df.ConvInner {
 							lenOK = true
 						}
 					}
